@@ -203,8 +203,12 @@ def on_write(ip, st, ev):
                     # an extrapolated point is copied into (w, Xw): the copy must be dominated by a test showing that
                     # the TRUE objective (datafit.value + penalty.value(w[:n_features]) of the same arrays) decreased
                     nf = z3.Int('n_features')
-                    new_obj = DVAL(wv2, xv2) + PVAL(wv2, z3.IntVal(0), nf)
-                    old_obj = DVAL(wold, xold) + PVAL(wold, z3.IntVal(0), nf)
+                    if xl in st.ghost.get('gramgrad', set()) and st.ghost.get('gram_G'):
+                        new_obj = gram_objective(st, wv2, st.ghost['gram_G'])
+                        old_obj = gram_objective(st, wold, st.ghost['gram_G'])
+                    else:
+                        new_obj = DVAL(wv2, xv2) + PVAL(wv2, z3.IntVal(0), nf)
+                        old_obj = DVAL(wold, xold) + PVAL(wold, z3.IntVal(0), nf)
                     obl(st, 'accepted-extrapolation-decreases-the-objective', new_obj < old_obj, None, prop='C03',
                         line_hint=ev.get('line'))
 
@@ -255,6 +259,47 @@ def count_of(st, a):
     if key not in cn:
         c = fresh(I, 'count')
         st.pc += [c >= 0, c <= st.vlen(a)]
+        cn[key] = c
+    return cn[key]
+
+
+def union_count_facts(st, masks, U):
+    """counting facts about boolean masks that the code itself built with ~ , & and | (all sound identities):
+    |A u B| == |A| + |B & ~A| ;  |A | B| is the union count ; |~A| == n - |A| ; |A & B| <= |A|, |B|"""
+    out = []
+    cur = lambda lv: st.heap.get(lv[0]) is not None and st.heap[lv[0]].eq(lv[1])
+    nots = {l: t for l, t in st.ghost.get('notmask', {}).items() if st.heap[l].eq(t[0])}
+
+    def complement(x, y):           # x == ~y or y == ~x (as array versions)
+        for l, (nv, ol, ov) in nots.items():
+            if (x[1].eq(nv) and y[1].eq(ov)) or (y[1].eq(nv) and x[1].eq(ov)):
+                return True
+        return False
+    for l, (nv, ol, ov) in nots.items():
+        out.append(count_of(st, SArr(l, kind='b')) == st.vlen(SArr(ol, kind='b')) - count_at(st, ol, ov))
+    if len(masks) == 2:
+        A, B = masks
+        for l, (nv, x, y) in st.ghost.get('andmask', {}).items():
+            if not st.heap[l].eq(nv):
+                continue
+            cm = count_of(st, SArr(l, kind='b'))
+            out += [cm <= count_at(st, *x), cm <= count_at(st, *y)]
+            for (P, Q) in ((A, B), (B, A)):
+                for (u, v) in ((x, y), (y, x)):
+                    if u[1].eq(Q[1]) and complement(v, P):          # the mask is  Q & ~P
+                        out.append(U == count_at(st, *P) + cm)
+        for l, (nv, x, y) in st.ghost.get('ormask', {}).items():
+            if st.heap[l].eq(nv) and ((x[1].eq(A[1]) and y[1].eq(B[1])) or (x[1].eq(B[1]) and y[1].eq(A[1]))):
+                out.append(U == count_of(st, SArr(l, kind='b')))
+    return out
+
+
+def count_at(st, loc, ver):
+    cn = st.ghost.setdefault('counts', {})
+    key = (loc, ver.get_id())
+    if key not in cn:
+        c = fresh(I, 'count')
+        st.pc += [c >= 0, c <= alen(ver)]
         cn[key] = c
     return cn[key]
 
@@ -339,6 +384,7 @@ def c_argpartition(ip, st, args, kw, node):
         if all(c is not None for c in cs):
             U = fresh(I, 'union_count')
             st.pc += [U >= c for c in cs] + [U <= z3.Sum(cs), U <= n]
+            st.pc += union_count_facts(st, masks[1], U)
             obl(st, 'working-set-covers-support-and-unpenalised', k >= U, node, prop='C01', counts=cs, k=k)
             st.ghost.setdefault('covers', {})[out.loc] = True
     return out
@@ -595,6 +641,13 @@ def c_pure_obj(ip, st, args, kw, node):
     return SObj(dotted(node.func) + '()')
 
 
+def c_dot_obj(ip, st, args, kw, node):
+    """M.dot(v): opaque result; one-dimensional when the argument is a vector"""
+    v = args[-1] if args else None            # ('*.dot' passes the receiver first)
+    one_d = (isinstance(v, SArr) and v.ndim == 1) or (isinstance(v, SObj) and v.attrs.get('ndim') == 1)
+    return SObj(dotted(node.func) + '()', attrs={'ndim': 1} if one_d else None)
+
+
 def c_slice_array(ip, st, args, kw, node):
     return newarr(st, 'sliced')
 
@@ -606,6 +659,8 @@ def c_format(ip, st, args, kw, node):
 def c_gram_epoch(ip, st, args, kw, node):       # _gram_cd_epoch(scaled_gram, w, grad, penalty, greedy_cd) -> scores
     G, w, grad = args[0], args[1], args[2]
     st.ghost.setdefault('gramgrad', set()).add(grad.loc)
+    if isinstance(G, SArr):
+        st.ghost['gram_G'] = (G.loc, st.ver(G))
     get_pair(st, w.loc, grad.loc)
     for a in (w, grad):
         st.bump(a.loc, '_gram_cd_epoch', node, kernel='_gram_cd_epoch', kernel_pair=(w.loc, grad.loc))
@@ -622,6 +677,22 @@ def c_gram_epoch(ip, st, args, kw, node):       # _gram_cd_epoch(scaled_gram, w,
     st.events.append(dict(kind='score', out=o.loc, wloc=w.loc, wv=wv, lo=z3.IntVal(0), wlen=n, strat=SUBDIFF, ws=allf.loc, wsv=av,
                           line=node.lineno, grad_ok=True, xv=gv, xloc=grad.loc, aux=NOAUX))
     return o
+
+
+def gram_objective(st, wv, gq):
+    """0.5 * w @ (G @ w) - c @ w + penalty.value(w) as the interpreter builds it (deterministic functions of versions); c is the
+    array b of the Gram-form gradient G w - b"""
+    from pv.struct import DOT
+    b = None
+    for loc in st.ghost.get('gramgrad', set()):
+        t = gram_tag(st, loc)
+        if t is not None:
+            b = t['b']
+    if b is None:
+        return None
+    half_w = z3.Function('PURE_Mult_SA', R, V, V)(z3.RealVal('0.5'), wv)
+    Gw = z3.Function('PURE_MatMult_AA', V, V, V)(gq[1], wv)
+    return DOT(half_w, Gw) - DOT(b[1], wv) + PVAL(wv, z3.IntVal(0), alen(wv))
 
 
 def c_fresh_real(ip, st, args, kw, node):
@@ -699,7 +770,7 @@ BASE_CALLS = {
     'X.multiply': c_pure_obj, 'modifies:X.multiply': [], 'X.toarray': c_pure_obj,
     '*.format': c_format, 'modifies:*.format': [], '_slice_array': c_slice_array, 'modifies:_slice_array': [],
     '_gram_cd_epoch': c_gram_epoch, 'modifies:_gram_cd_epoch': [1, 2], 'np.linalg.norm': c_fresh_real, 'modifies:np.linalg.norm': [],
-    '*.dot': c_pure_obj, 'modifies:*.dot': [], '*.toarray': c_pure_obj, 'modifies:*.toarray': [],
+    '*.dot': c_dot_obj, 'modifies:*.dot': [], '*.toarray': c_pure_obj, 'modifies:*.toarray': [],
     'UserWarning': c_opaque,
     'AndersonAcceleration': c_anderson_new, 'accelerator.extrapolate': c_extrapolate,
     'attr:X.shape': attr_shape,
